@@ -3,6 +3,25 @@ package main
 // Bounded stand-ins (DESIGN 2.9): exhaustive enumeration of a stated finite domain
 // against an integer oracle, run against the real code through an overlay test.
 // Labelled bounded and never counted as proved.
+//
+// Each stand-in is a Go test file under /verif/bounded/ with a header:
+//   // prop: C15
+//   // tier: quick | thorough
+//   // name: TrimCollinear64.closed-clauses
+//   // what: ...
+//   // bound: ...
+// The test prints  VERIF-BOUNDED <name> cases=<n>  and, per failing case (at most a few),
+// VERIF-BOUNDED-FAIL <name> <description of the input>.
+
+import (
+	"fmt"
+	"os"
+	"path/filepath"
+	"regexp"
+	"sort"
+	"strconv"
+	"strings"
+)
 
 type BoundedResult struct {
 	Name       string
@@ -11,8 +30,80 @@ type BoundedResult struct {
 	Cases      int
 	Exhaustive bool
 	Failures   []string
+	Ran        bool
 }
 
+var hdrRe = regexp.MustCompile(`(?m)^// (prop|tier|name|what|bound): (.*)$`)
+
 func runBounded(w *World, prop, tier string, seed int, dir string) []*BoundedResult {
-	return nil
+	files, _ := filepath.Glob("/verif/bounded/*.go")
+	sort.Strings(files)
+	var sel []string
+	byName := map[string]*BoundedResult{}
+	var order []*BoundedResult
+	for _, f := range files {
+		b, err := os.ReadFile(f)
+		if err != nil {
+			continue
+		}
+		h := map[string]string{}
+		for _, m := range hdrRe.FindAllStringSubmatch(string(b), -1) {
+			if _, dup := h[m[1]]; !dup {
+				h[m[1]] = strings.TrimSpace(m[2])
+			}
+		}
+		if !hasProp(strings.Fields(h["prop"]), prop) {
+			continue
+		}
+		if h["tier"] == "thorough" && tier != "thorough" {
+			continue
+		}
+		sel = append(sel, f)
+		for _, n := range strings.Fields(h["name"]) {
+			br := &BoundedResult{Name: "bounded:" + n, What: h["what"], Bound: h["bound"], Exhaustive: true}
+			byName[n] = br
+			order = append(order, br)
+		}
+	}
+	if len(sel) == 0 {
+		return nil
+	}
+	os.Setenv("VERIF_SEED", strconv.Itoa(seed))
+	os.Setenv("VERIF_TIER", tier)
+	_, out := runOverlayTests(w, []overlayTest{{Name: "VerifNoop", Body: "\t\tfmt.Println(\"VERIF-RESULT VerifNoop pass\")"}}, filepath.Join("/verif/out", prop, "bounded"), sel...)
+	for _, l := range strings.Split(out, "\n") {
+		l = strings.TrimSpace(l)
+		if strings.HasPrefix(l, "VERIF-BOUNDED-FAIL ") {
+			f := strings.SplitN(l, " ", 3)
+			if br := byName[f[1]]; br != nil && len(f) == 3 {
+				br.Failures = append(br.Failures, f[2])
+			}
+		} else if strings.HasPrefix(l, "VERIF-BOUNDED ") {
+			f := strings.Fields(l)
+			if br := byName[f[1]]; br != nil {
+				br.Ran = true
+				for _, kv := range f[2:] {
+					if strings.HasPrefix(kv, "cases=") {
+						br.Cases, _ = strconv.Atoi(kv[6:])
+					}
+				}
+			}
+		}
+	}
+	for _, br := range order {
+		if !br.Ran {
+			br.Failures = append(br.Failures, "bounded stand-in did not run (build or run-time failure): "+firstLines(tailLines(out, 15), 15))
+		}
+	}
+	return order
 }
+
+func tailLines(s string, n int) string {
+	ls := strings.Split(strings.TrimSpace(s), "\n")
+	if len(ls) > n {
+		ls = ls[len(ls)-n:]
+	}
+	return strings.Join(ls, "\n")
+}
+
+var _ = fmt.Sprint
